@@ -17,7 +17,7 @@ TEXTS = {
                 "(C01_builder_ontologies_exact); Arena::insert and every successful add_parent keep "
                 "ids unique, links resolving and children the exact inverse of parents, add_parent adds exactly one link. Plus soundness of the "
                 "executable statement closure_ok, which the check evaluates inside Coq on the real crate's observation of every generated "
-                "ontology (Builder, binary v1-v3, hp.obo, sub_ontology paths); the transcription is diffed against the crate. EACH CONSTRUCTION PATH (C01_every_constructed_ontology): for every ontology produced by a Builder script, a JAX load (closed hp.obo), from_bytes on a well-formed file, or sub_ontology of any such ontology (nested to any depth) the ancestor caches are exactly the transitive closure, children = parents^-1 and the graph is acyclic. TOTALITY (C01_connect_returns_on_ranked_graphs): connect_all_terms returns on every graph with a rank decreasing along parent links below the fuel — it returns exactly on acyclic graphs. RENDERINGS (sub-check C01r; C01_mermaid_text, C01_rendered_edges_are_the_links, C01_graphviz_returns): as_mermaid / as_graphviz draw exactly the parent-child links.",
+                "ontology (Builder, binary v1-v3, hp.obo, sub_ontology paths); the transcription is diffed against the crate. EACH CONSTRUCTION PATH (C01_every_constructed_ontology): for every ontology produced by a Builder script, a JAX load (closed hp.obo), from_bytes on a well-formed file, or sub_ontology of any such ontology (nested to any depth) the ancestor caches are exactly the transitive closure, children = parents^-1 and the graph is acyclic. TOTALITY (C01_connect_returns_iff_acyclic, C01_connect_returns_on_ranked_graphs): with the fuel the code path uses, connect_all_terms returns EXACTLY on acyclic graphs (running out of fuel would exhibit a chain of parent links longer than the number of terms, hence a cycle: pigeonhole). RENDERINGS (sub-check C01r; C01_mermaid_text, C01_rendered_edges_are_the_links, C01_graphviz_returns): as_mermaid / as_graphviz draw exactly the parent-child links.",
         "design_ref": "DESIGN.md §4 C01, §9",
         "note": NOTE_COMMON + "Acyclic inputs only (the property's quantifier). Totality of the fuelled recursion on DAGs is not a theorem (a fuel exhaustion would show as a disagreement).",
         "technique": TECH,
